@@ -168,6 +168,13 @@ def _yields(f):
 def prove(rep, sc, rule, subject, formula, f, construct, message, node):
   ok = sc.env.valid(formula, sc.hyp)
   w = None if ok else sc.describe(sc.env.witness(formula, sc.hyp))
+  free_ = sorted(str(k_) for k_ in getattr(sc, 'names', {}) if str(k_).startswith('var:'))
+  if not ok and free_:
+    # the group reads a set that is not followed back to the eligibility classes (a cache entry, a field, the result of
+    # a helper): in the formula it is a free set variable, and a "falsifying geo" that chooses its membership is no witness
+    rep.undecided(rule, subject, 'the formula holds only for some values of the sets %s, which are not followed back to the eligibility classes' % ', '.join(free_)[:100],
+                  f.loc(node.ast if hasattr(node, 'ast') and node.ast is not None else None))
+    return None
   rep.check(ok, rule, subject, f.qualname, construct, '%s; falsifying geo: %s' % (message, w), f.loc(node.ast if hasattr(node, 'ast') and node.ast is not None else None))
   return ok
 
